@@ -22,7 +22,7 @@ PROPS = {
     "C08": {"theorems": [], "modes": [{"name": "c08", "quick_n": 800, "thorough_n": 6000, "shard": 120}]},
     "C10": {"theorems": [], "modes": [{"name": "c10", "quick_n": 400, "thorough_n": 3000, "shard": 40}, {"name": "c10s", "quick_n": 400, "thorough_n": 3000, "shard": 40}]},
     "C11": {"theorems": [], "modes": [{"name": "c11", "quick_n": 400, "thorough_n": 3000, "shard": 40}]},
-    "C12": {"theorems": [], "modes": [{"name": "c12", "quick_n": 400, "thorough_n": 3000, "shard": 60}]},
+    "C12": {"theorems": [], "modes": [{"name": "c12", "quick_n": 400, "thorough_n": 3000, "shard": 60}, {"name": "c12d", "quick_n": 150, "thorough_n": 1500, "shard": 20}]},
     "C13": {"theorems": [], "modes": [{"name": "c13", "quick_n": 3, "thorough_n": 12, "shard": 120}]},
     "C15": {"theorems": [], "modes": [{"name": "c15", "quick_n": 150, "thorough_n": 1500, "shard": 60}]},
     "C05": {"theorems": [], "modes": [{"name": "c05", "quick_n": 400, "thorough_n": 3000, "shard": 30}]},
